@@ -190,6 +190,21 @@ def run_shard(desc, tier):
                 for specs in ([("fl", 0, 1)], [("f", 1)], [("s", 1)], [("s", 0)], [("fl", 0, size + 3)], [("fl", 2, 1)], [("fl", 0, 0), ("s", 2)], [("f", size)], [("fl", size + 1, size + 2)]):
                     txt = "bytes=" + ",".join((str(x[1]).zfill(pad) + "-" + str(x[2]).zfill(pad)) if x[0] == "fl" else (str(x[1]).zfill(pad) + "-" if x[0] == "f" else "-" + str(x[1]).zfill(pad)) for x in specs)
                     judge_grammar(specs, size, txt, r)
+        # a bare "-" among real specs is no spec: the header is either refused (400) or read as if the token were not there
+        for size in (10, 100):
+            base_sets = [[("fl", 0, 1)], [("fl", 10, 19), ("fl", 40, 49)], [("fl", 5, 2)], [("s", 3), ("fl", 0, 0)], [("f", 5)], [("fl", 2, 3), ("fl", 0, 9)], [("f", size + 5)]]
+            for specs in base_sets:
+                texts = [RR.spec_text(x) for x in specs]
+                want = _call("bytes=" + ",".join(texts), size)
+                for pos in range(len(texts) + 1):
+                    for junk in ("-", " - ", "-,-"):
+                        toks = texts[:pos] + [junk] + texts[pos:]
+                        header = "bytes=" + ",".join(toks)
+                        got = _call(header, size)
+                        r.count("evaluations")
+                        r.count("distinct_nontrivial")
+                        if got != want and not (got[0] == "http" and got[1] == 400):
+                            r.violation("bare-dash:reads-other-specs-differently", {"header": header, "size": size}, f"parse_range({header!r}, {size}) = {got!r:.100}; without the bare '-' token(s) the same specs give {want!r:.100} (refusing the header with 400 would be fine too)")
         r.sample({"header": "bytes=", "sizes": [0, 1, 5, 10, 768], "padded": "bytes=0000-0001"})
     elif kind == "width":
         size = desc[1]
@@ -292,6 +307,30 @@ def run_shard(desc, tier):
                 ("bytes=" + "0" * 5000 + "1-" + "0" * 5000 + "2", [("fl", 1, 2)]),
             ):
                 judge_grammar(specs, size, header, r)
+        # files beyond 4 GiB: starts that lie close together, ends around 2^32 and 2^33 (judged by an interval reference: the
+        # bit-mask reference is for small files)
+        G = 8 * 2 ** 30
+        ends = [2 ** 32 - 2, 2 ** 32 - 1, 2 ** 32, 2 ** 32 + 10, 2 ** 33 - 2, 2 ** 33 - 1, 2 ** 33 + 5]
+        for s1 in (0, 1, 2, 3, 4):
+            for s2 in (0, 1, 2, 3, 4, 5):
+                for e1 in ends:
+                    for e2 in (s2, s2 + 1, 4, 2 ** 32 + 3):
+                        if e2 < s2 or e1 < s1:
+                            continue
+                        for specs in ([("fl", s2, e2), ("fl", s1, e1)], [("fl", s1, e1), ("fl", s2, e2)]):
+                            iv = sorted((a, min(b, G - 1) + 1) for _, a, b in specs)
+                            want = [iv[0]]
+                            for a, b in iv[1:]:
+                                if a <= want[-1][1]:
+                                    want[-1] = (want[-1][0], max(want[-1][1], b))
+                                else:
+                                    want.append((a, b))
+                            header = RR.header_text(specs)
+                            got = _call(header, G)
+                            r.count("evaluations")
+                            r.count("distinct_nontrivial")
+                            if got != ("ok", want):
+                                r.violation("large-file:wrong-union", {"header": header, "size": G, "large": True}, f"parse_range({header!r}, {G}) = {got!r:.120}, expected {want}")
         # the application has lowered the interpreter's limit on integer conversion after the library was imported (the limit is a
         # run-time setting): positions of 641 .. 4300 digits
         import sys
@@ -337,6 +376,10 @@ def replay(w):
         return bool(rr.viol), {"violations": sorted(rr.viol)}
     got = _call(w["header"], w["size"])
     r = R()
+    if w.get("large"):
+        rr = run_shard(("big",), "quick")
+        hits = {k: v for k, v in rr.viol.items() if v[1].get("large")}
+        return bool(hits), {"violations": sorted(hits)}
     # re-judge: grammar-conforming headers are re-parsed by the reference's own tiny parser
     specs = _parse_grammar(w["header"])
     if specs is not None:
